@@ -98,6 +98,9 @@ namespace pika::threads::detail {
         if (&ec != &throws) ec = make_success_code();
 
         get_thread_id_data(id)->interrupt(flag);    // notify thread
+#if defined(PIKA_VERIF)
+        PIKA_VERIF_POINT(1321, id.get());    // request recorded, wake-up not yet issued
+#endif
 
         // Set thread state to pending. If the thread is currently active we do
         // not retry. The thread will either exit or hit an interruption_point.
